@@ -68,20 +68,23 @@
  *    strcmp_s()
  */
 
-/* TODO: bounds check */
-static int compare_right(char const *a, char const *b) {
+/* The digit runs are compared within the bounds of both operands: na and nb
+   are the characters left in a and b, a run ends there as at a terminator. */
+static int compare_right(char const *a, size_t na, char const *b, size_t nb) {
     int bias = 0;
 
     /* The longest run of digits wins.  That aside, the greatest
        value wins, but we can't know that it will until we've scanned
        both numbers to know that they have the same magnitude, so we
        remember it in BIAS. */
-    for (;; a++, b++) {
-        if (!isdigit((int)*a) && !isdigit((int)*b))
+    for (;; a++, b++, na--, nb--) {
+        const int da = na && isdigit((unsigned char)*a);
+        const int db = nb && isdigit((unsigned char)*b);
+        if (!da && !db)
             return bias;
-        if (!isdigit((int)*a))
+        if (!da)
             return -1;
-        if (!isdigit((int)*b))
+        if (!db)
             return +1;
         if (*a < *b) {
             if (!bias)
@@ -89,23 +92,23 @@ static int compare_right(char const *a, char const *b) {
         } else if (*a > *b) {
             if (!bias)
                 bias = +1;
-        } else if (!*a && !*b)
-            return bias;
+        }
     }
 
     return 0;
 }
 
-/* TODO: bounds check */
-static int compare_left(char const *a, char const *b) {
+static int compare_left(char const *a, size_t na, char const *b, size_t nb) {
     /* Compare two left-aligned numbers: the first to have a
        different value wins. */
-    for (;; a++, b++) {
-        if (!isdigit((int)*a) && !isdigit((int)*b))
+    for (;; a++, b++, na--, nb--) {
+        const int da = na && isdigit((unsigned char)*a);
+        const int db = nb && isdigit((unsigned char)*b);
+        if (!da && !db)
             return 0;
-        if (!isdigit((int)*a))
+        if (!da)
             return -1;
-        if (!isdigit((int)*b))
+        if (!db)
             return +1;
         if (*a < *b)
             return -1;
@@ -144,25 +147,30 @@ EXPORT errno_t _strnatcmp_s_chk(const char *dest, rsize_t dmax, const char *src,
     ai = bi = 0;
     while (ai < dmax) {
         ca = dest[ai];
-        cb = src[bi];
+        cb = bi < srcbos ? src[bi] : '\0';
 
-        /* skip over leading spaces or zeros */
-        while (isspace((int)ca))
-            ca = dest[++ai];
+        /* skip over leading spaces or zeros, inside the operands */
+        while (isspace((unsigned char)ca)) {
+            if (++ai >= dmax) /* the first dmax characters compared equal */
+                return RCNEGATE(EOK);
+            ca = dest[ai];
+        }
 
-        while (isspace((int)cb))
-            cb = src[++bi];
+        while (isspace((unsigned char)cb))
+            cb = ++bi < srcbos ? src[bi] : '\0';
 
         /* process run of digits */
-        if (isdigit((int)ca) && isdigit((int)cb)) {
+        if (isdigit((unsigned char)ca) && isdigit((unsigned char)cb)) {
             fractional = (ca == '0' || cb == '0');
 
             if (fractional) {
-                if ((*resultp = compare_left(dest + ai, src + bi)) != 0) {
+                if ((*resultp = compare_left(dest + ai, dmax - ai, src + bi,
+                                             srcbos - bi)) != 0) {
                     return RCNEGATE(EOK);
                 }
             } else {
-                if ((*resultp = compare_right(dest + ai, src + bi)) != 0)
+                if ((*resultp = compare_right(dest + ai, dmax - ai, src + bi,
+                                              srcbos - bi)) != 0)
                     return RCNEGATE(EOK);
             }
         }
